@@ -290,6 +290,10 @@ def observe_ops(doc):
     if o.components and o.components.schemas:
         schemas = build_schemas(components=o.components.schemas, schemas=schemas, config=config)
     parameters = Parameters()
+    if o.components and o.components.parameters:
+        parameters = build_parameters(components=o.components.parameters, parameters=parameters, config=config)
+    request_bodies = (o.components and o.components.requestBodies) or {}
+    responses = (o.components and o.components.responses) or {}
     ops = []
     for path, item in o.paths.items():
         for method in METHODS:
@@ -300,42 +304,40 @@ def observe_ops(doc):
             tags = [utils.PythonIdentifier(value=t, prefix="tag") for t in operation.tags or ["default"]][:1]
             name = op_name(path, method, raw)
             ep = Endpoint(path=path, method=method, description="", name=name, requires_security=False, tags=tags)
-            # parameters: operation, then path item, then sort
-            sc = copy.copy(schemas)
-            r, sc2, _ = Endpoint.add_parameters(endpoint=ep, data=operation, schemas=sc, parameters=parameters, config=config)
+            # the leaf parsers are called in the order of the real loop and the Schemas / Parameters they return are threaded on,
+            # exactly as EndpointCollection.from_data does (inline classes of earlier operations are visible to later ones)
+            r, schemas, parameters = Endpoint.add_parameters(endpoint=ep, data=operation, schemas=schemas, parameters=parameters, config=config)
             params_ok = not isinstance(r, ParseError)
+            resps, bodies = [], []
             if params_ok:
-                r, sc2, _ = Endpoint.add_parameters(endpoint=r, data=item, schemas=sc2, parameters=parameters, config=config)
-                params_ok = not isinstance(r, ParseError)
-            if params_ok:
-                r = Endpoint.sort_parameters(endpoint=r)
-                params_ok = not isinstance(r, ParseError)
-            resps = []
-            for code, rd in (operation.responses or {}).items():
-                try:
-                    st = HTTPStatus(int(code))
-                except ValueError:
-                    resps.append((code, "RBadCode"))
-                    continue
-                rr, _ = response_from_data(status_code=st, data=rd, schemas=copy.copy(schemas), responses={}, parent_name=name, config=config)
-                resps.append((code, "RFail" if isinstance(rr, ParseError) else f"(ROk {int(st)})"))
-            bodies = []
-            if operation.request_body is not None and isinstance(operation.request_body, oai.RequestBody):
-                multi = len(operation.request_body.content) > 1
-                for ct, media in operation.request_body.content.items():
-                    one = operation.model_copy(update={"request_body": operation.request_body.model_copy(update={"content": {ct: media}})})
-                    bl, _ = body_from_data(data=one, schemas=copy.copy(schemas), request_bodies={}, config=config,
-                                           endpoint_name=(f"{name}__multi" if multi else name))
-                    if not bl:
-                        bodies.append((ct, "DROPPED"))      # the leaf parser returned neither a Body nor an error for a documented media type
+                for code, rd in (operation.responses or {}).items():
+                    try:
+                        st = HTTPStatus(int(code))
+                    except ValueError:
+                        resps.append((code, "RBadCode"))
                         continue
-                    b = bl[0]
-                    if isinstance(b, ParseError):
-                        d = b.detail or ""
-                        bodies.append((ct, "BInvalid" if d == "Invalid content type" else "BMissingSchema" if d == "Missing schema"
-                                       else "BUnsupported" if d.startswith("Unsupported content type") else "BPropFail"))
-                    else:
-                        bodies.append((ct, "BOk"))
+                    rr, schemas = response_from_data(status_code=st, data=rd, schemas=schemas, responses=responses, parent_name=name, config=config)
+                    resps.append((code, "RFail" if isinstance(rr, ParseError) else f"(ROk {int(st)})"))
+                bl, schemas = body_from_data(data=operation, schemas=schemas, request_bodies=request_bodies, config=config, endpoint_name=name)
+                rb = operation.request_body
+                cts = list(rb.content) if isinstance(rb, oai.RequestBody) else ([None] if (rb is not None and bl) else [])
+                if isinstance(rb, oai.RequestBody) and len(bl) != len(cts):
+                    bodies = [(ct, "DROPPED") for ct in cts]      # body_from_data returned neither a Body nor an error for some media type
+                else:
+                    for ct, b in zip(cts, bl):
+                        if isinstance(b, ParseError):
+                            d = b.detail or ""
+                            bodies.append((ct or "?", "BInvalid" if d == "Invalid content type" else "BMissingSchema" if d == "Missing schema"
+                                           else "BUnsupported" if d.startswith("Unsupported content type") else "BPropFail"))
+                        else:
+                            bodies.append((ct, "BOk"))
+                failed = bool(bodies) and all(x != "BOk" for _, x in bodies)
+                if not failed:
+                    r2 = copy.deepcopy(r)
+                    r2, schemas, parameters = Endpoint.add_parameters(endpoint=r2, data=item, schemas=schemas, parameters=parameters, config=config)
+                    params_ok = not isinstance(r2, ParseError)
+                    if params_ok:
+                        params_ok = not isinstance(Endpoint.sort_parameters(endpoint=r2), ParseError)
             ops.append({"key": f"{method.upper()} {path}", "name": name, "tags": [str(t) for t in tags], "params_ok": params_ok,
                         "responses": resps, "bodies": bodies})
     # observation of the real loop
@@ -582,7 +584,8 @@ def run(run, tier, replay=None):
                 "incl. default / 2XX / 0200 / 999 with valid, invalid and unsupported contents); non-trivial = generate() returned at least one diagnostic; distinct by document hash")
     run.assumptions += ["abstraction function harness/abstract_graph.py", "the census reads the generated sources with ast (method/url constants of _get_kwargs, "
                         "status comparisons of _parse_response, Content-Type constants and body kwargs)",
-                        "stage B(2) uses the real leaf parsers (add_parameters, response_from_data, body_from_data) as oracles for the per-piece outcomes; "
+                        "stage B(2) uses the real leaf parsers (add_parameters / sort_parameters, response_from_data per response, body_from_data per operation with a one-result-per-media-type "
+                        "check) as oracles for the per-piece outcomes, called in the order of the real loop with the returned Schemas / Parameters threaded on; "
                         "the model is the control flow of EndpointCollection.from_data / _add_responses / the body loop",
                         "diagnostics are matched on the reference path /components/schemas/<name> and on the text METHOD path of the warning header"]
     t0 = time.time()
